@@ -331,7 +331,7 @@ for _g, _props in _RELP.items():
 _RELT = {"T01": ["C01", "C02", "C10", "C12", "C18", "C19"], "T03": ["C03", "C04", "C05", "C07", "C08", "C09", "C18"], "T07": ["C03", "C04", "C07", "C15", "C16"],
          "T12": ["C08", "C09", "C12"], "T16": ["C03", "C04", "C08", "C15", "C16"], "T05": ["C03", "C04", "C05", "C06"],
          # fifth corpus (U<prop>.p<i>, written after seed round 9 with a list of what had been done before)
-         "U02": ["C01", "C02", "C10", "C12", "C13", "C18", "C20"], "U06": ["C03", "C04", "C05", "C06"], "U10": ["C01", "C02", "C10", "C12", "C18"], "U11": ["C03", "C09", "C11", "C12", "C18"],
+         "U02": ["C01", "C02", "C10", "C12", "C13", "C18", "C20"], "U09": ["C03", "C04", "C09", "C11", "C12", "C18"], "U06": ["C03", "C04", "C05", "C06"], "U10": ["C01", "C02", "C10", "C12", "C18"], "U11": ["C03", "C09", "C11", "C12", "C18"],
          "U13": ["C02", "C13"], "U15": ["C03", "C04", "C07", "C15", "C16"], "U17": ["C03", "C04", "C12", "C17"],
          # sixth corpus (V<prop>.p<i>, written after seed round 10)
          "V04": ["C03", "C04", "C05", "C06", "C07", "C08", "C16", "C19"], "V08": ["C03", "C04", "C08", "C13", "C19"], "V14": ["C14"], "V18": ["C01", "C02", "C03", "C04", "C08", "C13", "C17", "C18", "C19", "C20"],
@@ -502,3 +502,6 @@ mutant_on_patch("m-V18p2-len-constant-off-by-one", "V18.p2", ["C02", "C18"], [("
 # the fallible forms answer with Err, not with a panic of their own (C07.N / C15.N, judged in the no-debug-assertion configuration)
 mutant("c07-short-source-asserted-instead-of-refused", ["C07"], [("src/lib.rs", "            if !builder.is_full() || iter.next().is_some() {\n                return Err(LengthError);\n            }", "            assert!(builder.is_full(), \"too few items\");\n            if iter.next().is_some() {\n                return Err(LengthError);\n            }")], "C07.N")
 mutant("c15-short-boxed-slice-asserted-instead-of-refused", ["C15"], [("src/impl_alloc.rs", "        if slice.len() != N::USIZE {\n            return Err(LengthError);\n        }\n\n        Ok(unsafe { Box::from_raw(Box::into_raw(slice) as *mut _) })", "        if slice.len() > N::USIZE {\n            return Err(LengthError);\n        }\n        assert!(slice.len() == N::USIZE);\n\n        Ok(unsafe { Box::from_raw(Box::into_raw(slice) as *mut _) })")], "C15.N")
+
+mutant_on_patch("m-U09p1-replace-puts-the-removed-element-back", "U09.p1", ["C09", "C03"], [("src/sequence.rs", "let removed = ptr::replace(base.add(idx), last);", "let removed = ptr::replace(base.add(idx), ptr::read(base.add(idx)));")], "")
+mutant_on_patch("m-U09p3-joined-fields-in-the-other-order", "U09.p3", ["C09"], [("src/sequence.rs", "let joined = ManuallyDrop::new(Joined(self, last));", "let joined = ManuallyDrop::new(Joined(last, self));")], "C09.")
